@@ -120,8 +120,8 @@ func SV_C08_crash_restart() {
 // with the validator identity of party A and with every rotation of every
 // map iteration order.
 //
-// sv:bounds genesis with 4 validators in the last commit, two of them below the minimum self delegation (both purged at the first block end), unstakes of A maturing at blocks 3 and 4, symbolic funded balances, a proposal in voting whose deadline has passed (expired by the internal transaction of block 3); block 3 carries one SEND A->B with arbitrary amount/currency/fee, block 4 is empty; replica 2 = validator A's node key, and every rotation of the iteration order of every Go map ranged over during its two blocks (maps of 2..4 entries)
-// sv:outside wall clock and uuid sources (not reached by these blocks), the cross-chain witness role and job store (no tracker in these blocks), other transaction kinds and block-level hooks with non-empty inputs (allegations, proposal finalisation, trackers), IAVL internals, float behaviour on other CPU architectures
+// sv:bounds genesis with 4 validators in the last commit, two of them below the minimum self delegation (both purged at the first block end), unstakes of A maturing at blocks 3 and 4, symbolic funded balances, a proposal in voting whose deadline has passed (expired by the internal transaction of block 3), a bid conversation past its deadline (expired by the bid application's block hooks) beside an open one; block 3 carries one SEND A->B with arbitrary amount/currency/fee, block 4 is empty; replica 2 = validator A's node key, and every rotation of the iteration order of every Go map ranged over during its two blocks (maps of 2..4 entries)
+// sv:outside the wall clock (not reached by these blocks; the uuid of the internal transactions is a fresh value per call), the cross-chain witness role and job store (no tracker in these blocks), other transaction kinds and block-level hooks with non-empty inputs (allegations, proposal finalisation, trackers), IAVL internals, float behaviour on other CPU architectures
 // sv:goal same DeliverTx results, validator updates and ordered write sets in both blocks
 func SV_C01_node_identity_and_map_order() {
 	sv.NominalSizes(64)
@@ -155,6 +155,9 @@ func SV_C01_node_identity_and_map_order() {
 		if err := pm.ProposalFund.AddFunds(svPropID, svParty_(1).Addr, balance.NewAmountFromInt(10)); err != nil {
 			sv.Unreachable("funds")
 		}
+		// a bid conversation past its deadline: the external application's block
+		// hooks queue its expiry (built with the node's own validator address) and run it
+		svBidGenesis(app, 7, 9)
 		svCommitBlock(app)
 		return app
 	}
